@@ -567,7 +567,11 @@ func aggregate(spec Spec, children []childOut, logDir string) aggT {
 			for _, blk := range splitRaceBlocks(string(b)) {
 				sig := raceSig(blk)
 				a.counts["race_reports"]++
-				if spec.RaceViolation != nil && spec.RaceViolation.MatchString(blk) {
+				subject := blk
+				if spec.RaceOnTopFrames {
+					subject = sig
+				}
+				if spec.RaceViolation != nil && spec.RaceViolation.MatchString(subject) {
 					a.viol = append(a.viol, violRec{Case: "race-detector", V: rec.Violation{
 						Prop: spec.ID, Sig: "race:" + sig, What: "data race on state the property anchors: " + sig,
 						Witness: map[string]any{"report": lastLines(blk, 80)},
